@@ -464,3 +464,23 @@ package process
 //@   inline
 //@ contract stringifyContext
 //@   loop 1 invariant visited == emptyStrSet || len(bufstr[addrof(buffer)]) >= 2
+
+// ---- C09: names and free names
+//@ contract (*Name).Initialized
+//@   requires[C09] n != nil
+//@ contract (*Name).Equal
+//@   requires[C09] name1 != nil
+//@ contract (*Name).ContainedIn
+//@   requires[C09] n != nil
+//@ contract interface Form.FreeNames(self)
+//@   requires[C09] formOK(self)
+//@   decreases[C09] fsize(self)
+// an explicit polarity annotation is compared with the polarity of the name's type, which must be structural
+//@ macro polarityReady(n Name) bool = n.ExplicitPolarity != nil && n.Type != nil ==> !is(n.Type, types.LabelType)
+//@ contract (*Name).ExplicitPolarityValid
+//@   requires[C09] n != nil && polarityReady(deref(n))
+//@ contract checkExplicitPolarityValidity
+//@   requires[C09] formOK(p) && (forall k int :: 0 <= k && k < len(names) ==> polarityReady(names[k]))
+//@ contract (*Name).ExplicitPolarityValid
+//@   ensures[C09] C09.polarityChecked: !result ==> n.ExplicitPolarity != nil && n.Type != nil
+//@   pure
